@@ -375,7 +375,14 @@ theorem wpe_initBody (w : WFH c) (I : S → Prop) (s : S)
 
 /-! ### partition -/
 
-def partBody (c : Cfg) (s0 : S) (j : Nat) : Prog :=
+/-- repaired F11: `rmtree` of a left-over `wip_p<j>` -/
+def cleanW (c : Cfg) (s0 : S) (j : Nat) : Prog :=
+  if s0 (.wdir j) ≠ .absent then
+    ((c.rmWork j).filter fun p => s0 (p.1.w j) ≠ .absent).map (fun p => .set (p.1.w j) p.2) ++
+      [.set (.wdir j) .absent]
+  else []
+
+def partBody0 (c : Cfg) (s0 : S) (j : Nat) : Prog :=
   [.set (.wdir j) .ok] ++
   (c.wseq j).flatMap (fun p =>
     match p.1 with
@@ -390,10 +397,15 @@ def partBody (c : Cfg) (s0 : S) (j : Nat) : Prog :=
    else []) ++
   [.move (finalMv c j)]
 
+def partBody (c : Cfg) (s0 : S) (j : Nat) : Prog := cleanW c s0 j ++ partBody0 c s0 j
+
 theorem partitionProg_eq (c : Cfg) (s0 : S) (j : Nat) :
     partitionProg c s0 j =
       .check (fun s => s .plan = .ok) :: .check (fun _ => decide (j < c.nParts)) ::
-      partBody c s0 j := rfl
+      partBody c s0 j := by
+  simp only [partitionProg, partBody, partBody0, cleanW, staleMv, finalMv, List.append_assoc,
+    List.cons_append, List.nil_append]
+  rfl
 
 /-- the checks preceding a touch of partition `j` -/
 def chkW (p : PRef × V) : List (S → Bool) :=
@@ -416,9 +428,31 @@ theorem PRef.s_isS (j : Nat) (r : PRef) : (r.s j).isS = true := by cases r <;> r
 theorem Obj.scratch_of_isS {o : Obj} (h : o.isS = true) : o.scratch = true := by
   cases o <;> simp_all [Obj.isS, Obj.scratch]
 
-theorem wpe_partBody (w : WFH c) (h : InvA c s) {j : Nat} (hp : s .plan = .ok) (hj : j < c.nParts) :
-    wpe (InvA c) True (partBody c s j) (fun s' => InvA c s' ∧ s' .plan = .ok ∧ s' (.pdir j) = .ok ∧
-      (∀ r ∈ allRefs c j, s' (r.p j) = .ok) ∧ ∀ j', j' ≠ j → s' (.pdir j') = s (.pdir j')) s := by
+/-- the clean-up of a left-over work directory touches scratch objects only -/
+theorem wpe_cleanW (h : InvA c s) (s0 : S) (j : Nat) :
+    wpe (InvA c) True (cleanW c s0 j) (fun s' => ∀ o : Obj, o.scratch = false → s' o = s o) s := by
+  unfold cleanW
+  by_cases hc : s0 (.wdir j) ≠ .absent
+  · rw [if_pos hc]
+    refine wpe_sets _ _ (fun s' => ∀ o : Obj, o.scratch = false → s' o = s o)
+      (fun o => o.scratch = true) _ ?_ ?_ (fun _ h' => h.congr h') s (fun _ _ => rfl)
+    · intro st hst
+      rcases List.mem_append.1 hst with h' | h'
+      · obtain ⟨p, _, rfl⟩ := List.mem_map.1 h'
+        exact ⟨_, _, rfl, PRef.w_scratch j p.1⟩
+      · exact ⟨_, _, by simpa using h', rfl⟩
+    · intro s' o v hR ho x hx
+      simp only [upd]
+      rw [if_neg (by rintro rfl; rw [ho] at hx; cases hx)]
+      exact hR x hx
+  · rw [if_neg hc]; exact fun _ _ => rfl
+
+/-- the body after the clean-up, started from a state `s1` that agrees with the state `s` the
+    command was issued in except on scratch objects -/
+theorem wpe_partBody0 (w : WFH c) (h : InvA c s) {j : Nat} (hp : s .plan = .ok) (hj : j < c.nParts)
+    (s1 : S) (h01 : ∀ o : Obj, o.scratch = false → s1 o = s o) :
+    wpe (InvA c) True (partBody0 c s j) (fun s' => InvA c s' ∧ s' .plan = .ok ∧ s' (.pdir j) = .ok ∧
+      (∀ r ∈ allRefs c j, s' (r.p j) = .ok) ∧ ∀ j', j' ≠ j → s' (.pdir j') = s (.pdir j')) s1 := by
   let R : S → Prop := fun s' => InvA c s' ∧ s' .plan = .ok ∧ s' (.wdir j) = .ok ∧
       (∀ r ∈ allRefs c j, s' (r.w j) = .ok) ∧ ∀ j', j' ≠ j → s' (.pdir j') = s (.pdir j')
   have hRS : ∀ s' o v, R s' → o.isS = true → R (upd s' o v) := by
@@ -431,19 +465,20 @@ theorem wpe_partBody (w : WFH c) (h : InvA c s) {j : Nat} (hp : s .plan = .ok) (
     · rw [hne _ rfl]; exact w1
     · intro r hr; rw [hne _ (by cases r <;> rfl)]; exact a1 r hr
     · intro j' hj'; rw [hne _ rfl]; exact d1 j' hj'
-  unfold partBody
-  refine wpe_seq _ _ _ _ R _ s (wpe_seq _ _ _ _ R _ s ?_ ?_) ?_
+  unfold partBody0
+  refine wpe_seq _ _ _ _ R _ s1 (wpe_seq _ _ _ _ R _ s1 ?_ ?_) ?_
   · -- build wip_p<j>
-    refine ⟨h, ?_⟩
+    refine ⟨h.congr h01, ?_⟩
     rw [wseq_fun_eq]
     have := wpe_touchSeq (fun r => PRef.w j r) (fun x y e => (PRef.w_inj e).2) (InvA c) True chkW
-      (c.wseq j) (upd s (.wdir j) .ok) ?_
+      (c.wseq j) (upd s1 (.wdir j) .ok) ?_
     · refine wpe_mono _ _ _ _ _ ?_ _ this
       intro s2 ⟨fr, lt⟩
       have hne : ∀ x : Obj, x.scratch = false → s2 x = s x := by
         intro x hx
         rw [fr x (by rintro p _ rfl; rw [PRef.w_scratch] at hx; cases hx)]
-        simp only [upd]; rw [if_neg]; rintro rfl; simp [Obj.scratch] at hx
+        simp only [upd]; rw [if_neg (by rintro rfl; simp [Obj.scratch] at hx)]
+        exact h01 x hx
       refine ⟨h.congr hne, ?_, ?_, ?_, ?_⟩
       · rw [hne _ rfl]; exact hp
       · rw [fr _ (by intro p _; cases p.1 <;> simp [PRef.w])]; simp [upd]
@@ -453,7 +488,8 @@ theorem wpe_partBody (w : WFH c) (h : InvA c s) {j : Nat} (hp : s .plan = .ok) (
       have hne : ∀ x : Obj, x.scratch = false → s' x = s x := by
         intro x hx
         rw [fr x (by rintro p _ rfl; rw [PRef.w_scratch] at hx; cases hx)]
-        simp only [upd]; rw [if_neg]; rintro rfl; simp [Obj.scratch] at hx
+        simp only [upd]; rw [if_neg (by rintro rfl; simp [Obj.scratch] at hx)]
+        exact h01 x hx
       refine ⟨h.congr hne, ?_⟩
       rintro ⟨r, v⟩ hpm q hq
       cases r with
@@ -515,6 +551,12 @@ theorem wpe_partBody (w : WFH c) (h : InvA c s) {j : Nat} (hp : s .plan = .ok) (
     · intro j' hj'
       rw [h3 _ (by simpa using hj') (by intro r _; cases r <;> simp [PRef.p]) rfl]
       exact d3 j' hj'
+
+theorem wpe_partBody (w : WFH c) (h : InvA c s) {j : Nat} (hp : s .plan = .ok) (hj : j < c.nParts) :
+    wpe (InvA c) True (partBody c s j) (fun s' => InvA c s' ∧ s' .plan = .ok ∧ s' (.pdir j) = .ok ∧
+      (∀ r ∈ allRefs c j, s' (r.p j) = .ok) ∧ ∀ j', j' ≠ j → s' (.pdir j') = s (.pdir j')) s := by
+  unfold partBody
+  exact wpe_seq _ _ _ _ _ _ s (wpe_cleanW h s j) (fun s1 h01 => wpe_partBody0 w h hp hj s1 h01)
 
 /-! ## stage B: the invariant of the finalise stage -/
 
